@@ -616,6 +616,11 @@ class Repo:
         out = {k for k, v in self.expansion.get("into", {}).items() if f.key in v}
         return out or None
 
+    def live(self, funcs):
+        """The functions among `funcs` that are functions in their own right: a private helper all of whose calls were expanded
+        (sa/inline.py) only exists as a part of its callers and is examined there."""
+        return [f for f in funcs if self.transparent_callers(f) is None]
+
     def find_func(self, key: str) -> FuncInfo | None:
         mod, _, local = key.partition(":")
         if mod not in self.modules:
